@@ -167,6 +167,27 @@ fn pure(a: &Args, out: &mut ShardOut) -> Vec<Value> {
                 };
                 let elen = [0usize, 1, nh - 1, nh, nh + 1, 255, 255 * nh][rng.below(7)];
                 let exported = guarded(|| vh::kdf::export_secret(&cs, &s.exporter, &label, &ectx, elen)).ok().and_then(|r| r.ok());
+                // transcript hashes of a synthetic (path-less, empty) commit framed either way
+                let t_wire: u16 = if rng.chance(1, 2) { 1 } else { 2 };
+                let t_prev = if rng.chance(1, 8) { vec![] } else { rng.bytes(nh) };
+                let t_ac = {
+                    let mut b = vec![];
+                    b.extend_from_slice(&t_wire.to_be_bytes());
+                    put_opaque(&mut b, &gid);
+                    b.extend_from_slice(&epoch.to_be_bytes());
+                    b.push(1); // Sender::Member
+                    b.extend_from_slice(&(rng.below(64) as u32).to_be_bytes());
+                    let n = rng.below(30);
+                    put_opaque(&mut b, &rng.bytes(n));
+                    b.push(3); // ContentType::Commit
+                    b.push(0); // no proposals
+                    b.push(0); // no update path
+                    let n = rng.range(1, 100);
+                    put_opaque(&mut b, &rng.bytes(n)); // signature
+                    put_opaque(&mut b, &rng.bytes(nh)); // confirmation tag
+                    b
+                };
+                let t_out = guarded(|| vh::kdf::transcript_hashes(&cs, &t_prev, &t_ac)).ok().and_then(|r| r.ok());
                 // plain ExpandWithLabel / DeriveSecret
                 let xsecret = rng.bytes(nh);
                 let xlabel = b"verif-label".to_vec();
@@ -190,6 +211,8 @@ fn pure(a: &Args, out: &mut ShardOut) -> Vec<Value> {
                             "psk_secret": hx(&psk_only),
                             "welcome_key_used": welcome_used.as_ref().map(|x| x.0.clone()),
                             "welcome_nonce_used": welcome_used.as_ref().map(|x| x.1.clone())},
+                    "transcript": {"wire_format": t_wire, "interim_prev": hx(&t_prev), "ac": hx(&t_ac),
+                                   "confirmed": t_out.as_ref().map(|x| hx(&x.0)), "interim": t_out.as_ref().map(|x| hx(&x.1))},
                     "tree_probes": tree_probes,
                     "export": {"label": hx(&label), "context": hx(&ectx), "len": elen, "out": exported.map(|e| hx(&e))},
                     "expand": {"secret": hx(&xsecret), "label": hx(&xlabel), "context": hx(&xctx), "len": xlen,
